@@ -114,6 +114,11 @@ FMT_CASES = {
     "%d/%m/%Y": ([("d", 2), "/03/", ("Y", 4)], ["day", "month", "year"]),
     "%H:%M": ([("H", 2), ":", ("M", 2)], []),
     "%m-%Y": (["03-", ("Y", 4)], ["month", "year"]),
+    # clock-time and other directives next to partial dates (their letters differ from date directives only in case)
+    "%d %Y %H:%M": ([("d", 2), " ", ("Y", 4), " ", ("H", 2), ":", ("M", 2)], ["day", "year"]),
+    "%Y %H:%M:%S": ([("Y", 4), " ", ("H", 2), ":", ("M", 2), ":45"], ["year"]),
+    "%d %b %I:%M %p": ([("d", 2), " Mar 10:", ("M", 2), " PM"], ["day", "month"]),
+    "%y-%m": (["15-", ("m", 2)], ["month", "year"]),
 }
 
 
@@ -125,7 +130,7 @@ def h_fmt(fmt, strict):
         v = {}
         for p in parts:
             if not isinstance(p, str):
-                lo, hi = {"Y": (1000, 9999), "d": (1, 28), "H": (0, 23), "M": (0, 59)}[p[0]]
+                lo, hi = {"Y": (1000, 9999), "d": (1, 28), "H": (0, 23), "M": (0, 59), "m": (1, 12)}[p[0]]
                 v[p[0]] = C.field(p[0], lo, hi)
         s = tmpl(parts, v)
         base = {"TIMEZONE": "UTC"}
@@ -204,6 +209,24 @@ def h_kernel():
     return fn
 
 
+DIRECTIVES = ["%a", "%A", "%w", "%d", "%b", "%B", "%m", "%y", "%Y", "%H", "%I", "%p", "%M", "%S", "%f", "%z", "%Z", "%j",
+              "%U", "%W", "%D", "%e", "%h", "%G", "%u", "%V"]
+_STATES = {"day": ("%d", "%j"), "month": ("%b", "%B", "%m"), "year": ("%y", "%Y")}
+
+
+def h_missing(k):
+    """_get_missing_parts on a format of k directives chosen by symbolic indices: a part is missing iff none of ITS
+    directives (case-sensitive) is in the format"""
+    def fn():
+        n = C.ns()
+        idx = [core.concretize(C.field("i%d" % j, 0, len(DIRECTIVES) - 1)) for j in range(k)]
+        fmt = " ".join(DIRECTIVES[i] for i in idx)
+        got = n.U._get_missing_parts(fmt)
+        want = [p for p in ("day", "month", "year") if not any(DIRECTIVES[i] in _STATES[p] for i in idx)]
+        return C.outcome(list(got) == want, {"i%d" % j: i for j, i in enumerate(idx)}, "missing")
+    return fn
+
+
 # ------------------------------------------------------------------------------------------------ task lists
 def tasks(tier, seed):
     out = []
@@ -212,6 +235,7 @@ def tasks(tier, seed):
     def add(name, fn, args, budget=240):
         out.append({"name": name, "fn": fn, "args": args, "budget_s": budget if quick else budget * 5, "max_paths": 20000})
     add("kernel:_check_strict_parsing", "h_kernel", {})
+    add("kernel:_get_missing_parts", "h_missing", {"k": 2 if quick else 3})
     subsets = [list(c) for n in range(1, 6) for c in itertools.combinations(PARTS, n)]
     for i, sub in enumerate(subsets):
         stricts = ["STRICT"] + REQ
@@ -236,6 +260,8 @@ def build_spec(task, viol):
     fn = task["fn"]
     if fn == "h_kernel":
         return {"task": task["name"], "fn": fn, "witness": {k: bool(v) for k, v in viol["witness"].items()}}
+    if fn == "h_missing":
+        return {"task": task["name"], "fn": fn, "witness": w}
     fmts = None
     extra = {}
     ambiguous = False
@@ -259,6 +285,14 @@ def build_spec(task, viol):
 
 def native_check(spec):
     from symx import native
+    if spec["fn"] == "h_missing":
+        native.import_repo()
+        from dateparser.utils import _get_missing_parts
+        idx = [spec["witness"][k] for k in sorted(spec["witness"]) if k.startswith("i")]
+        fmt = " ".join(DIRECTIVES[i] for i in idx)
+        want = [p for p in ("day", "month", "year") if not any(DIRECTIVES[i] in _STATES[p] for i in idx)]
+        got = list(_get_missing_parts(fmt))
+        return {"violates": got != want, "detail": "_get_missing_parts(%r) -> %r, expected %r" % (fmt, got, want)}
     if spec["fn"] == "h_kernel":
         native.import_repo()
         from dateparser.parser import _check_strict_parsing
